@@ -204,11 +204,13 @@ RealTerm(content) ==
                        man |-> StripLZ(SubSeq(content, estart + elen, n))]]
   ELSE IF f < 64 THEN                                          \* decimal, ISO 6093 NR1..NR3
     (IF f \in {1, 2, 3} /\ n >= 2
-       THEN [c |-> Accept, term |-> [k |-> "dec", nr |-> f, chars |-> SubSeq(content, 2, n)]]
+       THEN [c |-> IF \A i \in 2..n : content[i] \in ({43, 45, 46, 69, 101} \cup (48..57)) THEN Accept ELSE Lenient,   \* spaces / comma: tolerated or refused
+             term |-> [k |-> "dec", nr |-> f, chars |-> SubSeq(content, 2, n)]]
        ELSE [c |-> Reject, term |-> [k |-> "none"]])
   ELSE                                                         \* special real values
-    (IF n = 1 /\ f \in {64, 65, 66, 67}
-       THEN [c |-> Accept, term |-> [k |-> "special",
+    (IF f \in {64, 65, 66, 67}
+       THEN [c |-> IF n = 1 THEN Accept ELSE Lenient,          \* surplus octets after a special value: tolerated or refused
+             term |-> [k |-> "special",
                  name |-> IF f = 64 THEN "plusinf" ELSE IF f = 65 THEN "minusinf" ELSE IF f = 66 THEN "nan" ELSE "minuszero"]]
        ELSE [c |-> Reject, term |-> [k |-> "none"]])
 
@@ -238,7 +240,8 @@ ValueOf(b, h) ==
      ELSE IF h.tag = 2 THEN LET r == IntOf(c) IN [c |-> MaxC(lc, r.c), vt |-> "int", v |-> r.v]
      ELSE IF h.tag = 4 THEN [c |-> lc, vt |-> "octets", v |-> c]
      ELSE IF h.tag = 5 THEN (IF h.cl = 0 THEN [c |-> lc, vt |-> "null"] ELSE [c |-> Reject, vt |-> "bad"])
-     ELSE IF h.tag = 6 THEN LET t == OidText(c) IN [c |-> MaxC(lc, t.c), vt |-> "oid", text |-> t.text, v |-> c]
+     ELSE IF h.tag = 6 THEN LET t == OidText(c) IN
+          [c |-> MaxC(lc, IF t.c = Reject THEN Free ELSE t.c), vt |-> "oid", text |-> t.text, v |-> c]   \* empty OID value: only totality
      ELSE IF h.tag = 7 THEN [c |-> lc, vt |-> "objdesc", v |-> c]
      ELSE IF h.tag = 9 THEN LET r == RealTerm(c) IN [c |-> MaxC(lc, r.c), vt |-> "real", term |-> r.term]
      ELSE [c |-> Reject, vt |-> "unsupported"])
